@@ -25,6 +25,7 @@ fn main() {
     if std::env::var("VERIF_DEBUG").is_err() { std::panic::set_hook(Box::new(|_| {})); }
     let (prop, tier, seed) = (a[1].as_str(), a[2].as_str(), a[3].parse::<u64>().unwrap_or(0));
     if prop == "C06CHILD" { c06::child(seed, if tier == "thorough" { 100_000 } else { 3_000 }); return; }
+    common::set_current_path(format!("{}.current", &a[5]));
     let mut out = common::Out::new(&a[4], &a[5]);
     match prop {
         "C05" => c05::run(seed, tier, &mut out),
